@@ -495,11 +495,11 @@ func main() { initCands(); vlib.Run("C16", run) }
 
 func run(c *vlib.Ctx) {
 	c.Rule("case = configuration (width 8..1024, estimation mode, threshold within +-4 units of the final set's size or at +-1 entry, MaxLinks in {0,|S|-1,|S|,|S|+1}, global or per-directory threshold, CID v0/v1, mode/mtime) + final set S of 0..10 entries (names with murmur3 prefix collisions, 1..300 B; 6 child forms with CID 6..68 B) reached by 4-5 histories; each history is checked after every op (root type vs rule, settings) and at its end (root CID vs independent canonical root); strata: hamt-pure (no switching, free detours), dyn-count (estimation disabled, free detours), dyn-grow (size modes, never shrinks while sharded), dyn-bounce (excursions = add+remove of one name), dyn-shrink (size modes, free detours: known findings are classified here); distinct = FNV of config+all op lists; non-trivial = >=3 histories of the case reached S with different op lists, at least one containing a removal, and at least one history changed representation (basic<->HAMT) on the way (for hamt-pure: a removal next to a name sharing its first-level bucket)")
-	c.Cases("hamt-pure", c.N(160, 1200), func(k *vlib.Case) { oneCase(k, "hamt-pure") })
-	c.Cases("dyn-count", c.N(160, 1200), func(k *vlib.Case) { oneCase(k, "dyn-count") })
-	c.Cases("dyn-grow", c.N(160, 1200), func(k *vlib.Case) { oneCase(k, "dyn-grow") })
-	c.Cases("dyn-bounce", c.N(160, 1200), func(k *vlib.Case) { oneCase(k, "dyn-bounce") })
-	c.Cases("dyn-shrink", c.N(160, 1200), func(k *vlib.Case) { oneCase(k, "dyn-shrink") })
+	c.Cases("hamt-pure", c.N(160, 2400), func(k *vlib.Case) { oneCase(k, "hamt-pure") })
+	c.Cases("dyn-count", c.N(160, 2400), func(k *vlib.Case) { oneCase(k, "dyn-count") })
+	c.Cases("dyn-grow", c.N(160, 2400), func(k *vlib.Case) { oneCase(k, "dyn-grow") })
+	c.Cases("dyn-bounce", c.N(160, 2400), func(k *vlib.Case) { oneCase(k, "dyn-bounce") })
+	c.Cases("dyn-shrink", c.N(160, 2400), func(k *vlib.Case) { oneCase(k, "dyn-shrink") })
 }
 
 func oneCase(k *vlib.Case, stratum string) {
